@@ -598,6 +598,73 @@ def run_twins(res, c):
             res["nontrivial"].append(hash(("twins", deco, how)) & 0xFFFFFFFFFFFF)
 
 
+def run_reborn(res, c):
+    """Instances that come and go: each of many short-lived instances (a later one may well be allocated where an
+    earlier one lived) calls its decorated method with the SAME arguments; every convention must run the body with
+    the instance it was called on."""
+    import gc
+    import asynq
+    from asynq import asynq as A
+    from asynq import async_call
+    from asynq.tools import DeduplicateDecorator, acached_per_instance, alru_cache, deduplicate
+
+    decos = {
+        "asynq": lambda f: A()(f),
+        "dedup": lambda f: deduplicate()(A()(f)),
+        "alru": lambda f: alru_cache(maxsize=4)(A()(f)),
+        "per_instance": lambda f: acached_per_instance()(A()(f)),
+    }
+    for deco, wrap in sorted(decos.items()):
+        for body in ("plain", "gen"):
+            asynq.scheduler.reset()
+            DeduplicateDecorator.tasks.clear()
+
+            @A()
+            def child(v):
+                return v
+
+            if body == "plain":
+                def describe(self, x, y=10):
+                    return (self.name, x, y)
+            else:
+                def describe(self, x, y=10):
+                    x = yield child.asynq(x)
+                    return (self.name, x, y)
+
+            Store = type("Store", (object,), {"describe": wrap(describe), "__init__": lambda self, name: setattr(self, "name", name)})
+
+            @A()
+            def yielder(m):
+                return (yield m.asynq(7))
+
+            convs = [
+                ("sync call", lambda s: s.describe(7)),
+                (".asynq().value()", lambda s: s.describe.asynq(7).value()),
+                ("yield .asynq()", lambda s: yielder(s.describe)),
+                ("async_call", lambda s: async_call(s.describe, 7)),
+                ("through the class", lambda s: Store.describe(s, 7)),
+            ]
+            for k in range(60):
+                s = Store("n%d" % k)
+                name, fn = convs[k % len(convs)]
+                got = outcome(lambda: fn(s))
+                res["evaluations"] += 1
+                c["calls_on_short_lived_instances"] = c.get("calls_on_short_lived_instances", 0) + 1
+                if got != ("val", ("n%d" % k, 7, 10)) and len(res["violations"]) < 8:
+                    res["violations"].append(
+                        {
+                            "oracle": "body-ran-for-another-instance",
+                            "mechanism": "body-ran-for-another-instance/" + deco,
+                            "detail": {"decorator": deco, "body": body, "convention": name, "instance": "n%d" % k, "observed": repr(got)[:160]},
+                            "case": {"mode": "reborn", "cases": [0, 1]},
+                        }
+                    )
+                    break
+                del s
+                gc.collect()
+            res["nontrivial"].append(hash(("reborn", deco, body)) & 0xFFFFFFFFFFFF)
+
+
 def cells():
     out = []
     for deco in DECOS:
@@ -618,6 +685,7 @@ def plan(tier, seed, build, scale):
     units = [{"mode": "matrix", "cases": [a, min(n, a + per)]} for a in range(0, n, per)]
     units.append({"mode": "plain", "cases": [0, 1]})
     units.append({"mode": "twins", "cases": [0, 1]})
+    units.append({"mode": "reborn", "cases": [0, 1]})
     nsh = len(DECOS) * len(BODIES) * (4 if tier == "quick" else 24)
     units.append({"mode": "shared_ns", "cases": [0, nsh // 2]})
     units.append({"mode": "shared_ns", "cases": [nsh // 2, nsh]})
@@ -636,6 +704,10 @@ def run_unit(unit, progress):
         progress(0)
         classify_plain(res, c)
         res["evaluations"] = 3
+        return res
+    if unit["mode"] == "reborn":
+        progress(0)
+        run_reborn(res, c)
         return res
     if unit["mode"] == "twins":
         progress(0)
@@ -702,7 +774,7 @@ def run_unit(unit, progress):
 
 def reach(c, tier):
     out = []
-    for k in ["cells_" + d for d in DECOS] + ["cells_binding_" + b for b in BINDINGS] + ["plain_callables", "shared_namespace_runs", "requests_from_inside_the_running_body", "lookalike_callables_compared"]:
+    for k in ["cells_" + d for d in DECOS] + ["cells_binding_" + b for b in BINDINGS] + ["plain_callables", "shared_namespace_runs", "requests_from_inside_the_running_body", "lookalike_callables_compared", "calls_on_short_lived_instances"]:
         if not c.get(k):
             out.append("%s is zero" % k)
     if c.get("cells", 0) < len(cells()):
